@@ -91,7 +91,21 @@ HARNESSES = [
 MODS = {"hnsw_backend.rs": "hnsw_backend_proofs.rs", "hnsw_index.rs": "hnsw_index_proofs.rs", "simd.rs": "simd_proofs.rs"}
 
 
+from props.C01 import prepare_persistence_overlay  # noqa: E402  (cfg(kani) file-system model for persistence.rs)
+
+FPS = [("persistence.rs", "append_internal_with_rollback"), ("persistence.rs", "rollback_to_stable_state"), ("persistence.rs", "rollback_to_offset"), ("persistence.rs", "write_entry"), ("persistence.rs", "perform_fsync")]
+PERSIST_HARNESSES = [
+    KH("O3.4/failed_append", "c03_o4_failed_append_rollback", "append_internal_with_rollback over the file model with a symbolic fault (frame write stops after any j < 52 bytes and fails, or the fsync fails; "
+       "the rollback's own set_len/seek may fail): acknowledged iff no fault; acknowledged => one new durable well-formed frame; failed + rollback ok => file, counters and the earlier frame exactly as before, "
+       "and a retry yields a clean two-frame log",
+       src="persistence.rs", functions=FPS, bounds="one good frame on disk, then one append with a symbolic fault plan; entries with arbitrary op/doc_id/seq_no/timestamp and empty payload; file capacity 128 bytes; unwind 50",
+       assumptions=["file-system model crate::verif_fs", "model checksum instead of crc32fast::hash", "FsyncPolicy::Always"], timeout=1500, replay="solver-only"),
+]
+
+
 def run(tier, seed, notes):
     obls = run_mir_obligations("C03", tier, MOS, notes)
     obls += run_kani_group("C03", tier, "lib", MODS, HARNESSES, jobs=6, notes=notes)
+    obls += run_kani_group("C03", tier, "lib", {"persistence.rs": "persistence_proofs.rs"}, PERSIST_HARNESSES, support=("verif_fs",), elide_tracing=("persistence.rs",),
+                           prepare=prepare_persistence_overlay, jobs=2, notes=notes)
     return obls
